@@ -8,6 +8,7 @@ K = @@K@@          # max indent length
 L = @@L@@          # max text length per line
 LEADERLESS = @@LEADERLESS@@
 NCP = @@NCP@@      # N * L
+PAD = @@PAD@@      # concrete filler inserted in the middle of every non-empty text: long lines at a concrete, large length
 
 
 def _pre(cps, m, ind, km) -> bool:
@@ -29,6 +30,8 @@ def _texts(cps, m):
         for k in range(L + 1):
             if m[i] == k:
                 t = hc.S(cps[i * L:i * L + k])
+                if PAD and k >= 2:
+                    t = hc.S(cps[i * L:i * L + 1]) + ("x" * PAD) + hc.S(cps[i * L + 1:i * L + k])
         out.append(t)
     return out
 
